@@ -4,6 +4,7 @@ from spec import classify
 from rules import C06
 
 LEVEL = 'other'
+FIXTURES = ['F3', 'F6']
 
 
 def run(ctx, R):
